@@ -135,6 +135,13 @@ Next == \/ \E op \in AllOps : Do(op, now) /\ now' = now
 
 Spec == Init /\ [][Next]_vars
 
+(* Write / Assign / AnnounceErr are by definition the same funnel calls as ReadOk / ReadRaise: *)
+(* the quick design check explores one representative operation per distinct funnel call      *)
+RepOps == {op \in AllOps : op.a \in {"ReadOk", "ReadRaise", "ReadInvalid", "AssignInvalid", "Activate"}}
+RepNext == \/ \E op \in RepOps : Do(op, now) /\ now' = now
+           \/ \E n \in 1 .. 2 : Tick(n)
+RepSpec == Init /\ [][RepNext]_vars
+
 TimeBound == now <= MaxNow
 
 (* ---------------- properties ---------------- *)
